@@ -351,6 +351,8 @@ fn decide(c: &Case, tier: Tier, out: &mut CaseOut, tolerate_known: bool) -> Resu
                             && match prog.tasks[t].ops[np] {
                                 Op::Acquire(..) | Op::AcqFinish | Op::Send(..) => f.obs == 0,
                                 Op::Recv(_) => f.obs == -1,
+                                // park returns through unpark, which the clocks do not track (not a listed edge)
+                                Op::Park => true,
                                 _ => false,
                             }
                     })
